@@ -129,6 +129,8 @@ def _unsync():
             prim |= {"C14"}
         if name == "insert_new_ttl_full":
             prim |= {"C08"}
+        if name in ("purge_both_tti_only_w", "purge_both_ttl_only_w"):
+            prim |= {"C05", "C06", "C07"}
         cost = 60
         if sym_time: cost = 300
         if real and not sym_time: cost = 90
